@@ -143,6 +143,7 @@ pub fn run(args: &Args) -> i32 {
         }
         // ---- oracle
         let emitted = ctls[0].with(|p| p.emitted.clone());
+        let already_closing = ctls[0].with(|p| p.emitted_already_closing.clone());
         let handlers: Vec<(ConnectionId, Vec<ProbeIn>)> = ctls[0].with(|p| p.handlers.iter().map(|(c, h)| (*c, h.received())).collect());
         let mut receivers: HashMap<u64, Vec<ConnectionId>> = HashMap::new();
         let order: HashMap<u64, usize> = emitted.iter().enumerate().map(|(k, (e, ..))| (e.seq, k)).collect();
@@ -168,7 +169,7 @@ pub fn run(args: &Args) -> i32 {
             }
         }
         let (mut delivered, mut dropped_closed) = (0u64, 0u64);
-        for (ev, peer, one, snap) in &emitted {
+        for (idx, (ev, peer, one, snap)) in emitted.iter().enumerate() {
             let got = receivers.get(&ev.seq).cloned().unwrap_or_default();
             let wit = json!({"seq": ev.seq, "peer": peer.to_string(), "one": one.map(|c| c.to_string()), "emission_time_set": snap.iter().map(|c| c.to_string()).collect::<Vec<_>>(),
                 "received_by": got.iter().map(|c| c.to_string()).collect::<Vec<_>>(), "closed": closed0.iter().map(|c| c.to_string()).collect::<Vec<_>>(), "buffer": buf, "case": case_idx,
@@ -202,9 +203,13 @@ pub fn run(args: &Args) -> i32 {
                         // closes before its task takes the event, the event is dropped legitimately ("dropped only
                         // when their target connection is closing or gone"). Which member was chosen is not
                         // observable, so a loss is judged only when no member of the set has closed.
-                        let any_closed = snap.iter().any(|c| closed0.contains(c));
-                        if !snap.is_empty() && !any_closed {
-                            check.violation("any-lost-target-open", format!("Any event seq {} never delivered although every connection of its emission-time set {snap:?} is still open", ev.seq), wit.clone());
+                        // Members whose handler had already reached poll_close when the event was emitted had their
+                        // command channel closed: they cannot have taken the event. Among the others, the chosen one
+                        // is not observable, so a loss is judged only when none of them has closed.
+                        let could_take: Vec<&ConnectionId> = snap.iter().filter(|c| !already_closing[idx].contains(c)).collect();
+                        let any_closed = could_take.iter().any(|c| closed0.contains(c));
+                        if !could_take.is_empty() && !any_closed {
+                            check.violation("any-lost-target-open", format!("Any event seq {} never delivered although {could_take:?} of its emission-time set could take it and are still open (already closing at emission: {:?})", ev.seq, already_closing[idx]), wit.clone());
                         } else {
                             dropped_closed += 1;
                         }
